@@ -599,6 +599,48 @@ impl World {
                     None => "err:Craft".into(),
                 }
             }
+            "advident" => {
+                // advident <i> <tsoff>: member i builds a COMMIT with OpenMLS directly whose update path re-binds ITS OWN leaf to
+                // another Nostr identity (fresh BasicCredential + fresh signature key: `self_update_with_new_signer`), discards
+                // its own pending commit, and publishes the commit like mdk would.  The commit carries no proposal, so for mdk's
+                // authorisation it is a pure self-update (any member may send one): `validate_commit_identities` is the only guard.
+                // Implementation-only probe of C05's last sentence (vlib/c05ident.py); the model knows no such commit.
+                use openmls::prelude::{BasicCredential, CredentialWithKey, LeafNodeParameters, MlsGroup, NewSignerBundle};
+                use openmls_basic_credential::SignatureKeyPair;
+                use tls_codec::Serialize as _;
+                let i = u(t[1]) as usize;
+                let gid = match self.clients[i].gid.clone() { Some(g) => g, None => return "err:NoGroup".into() };
+                let ts = self.t0 + u(t[2]);
+                let mdk = self.clients[i].mdk.take().unwrap();
+                let r: Option<Event> = with_mdk!(&mdk, |m| (|| {
+                    let storage = m.provider.storage();
+                    let rec = m.get_group(&gid).ok()??;
+                    let mut mg = MlsGroup::load(storage, gid.inner()).ok()??;
+                    let own = mg.own_leaf()?.clone();
+                    let signer = SignatureKeyPair::read(storage, own.signature_key().as_slice(), mg.ciphersuite().signature_algorithm())?;
+                    let sec = mg.export_secret(m.provider.crypto(), "nostr", b"nostr", 32).ok()?;
+                    let foreign = Keys::generate().public_key().to_bytes().to_vec();
+                    let new_signer = SignatureKeyPair::new(mg.ciphersuite().signature_algorithm()).ok()?;
+                    let cwk = CredentialWithKey { credential: BasicCredential::new(foreign).into(), signature_key: new_signer.public().into() };
+                    let bundle = mg
+                        .self_update_with_new_signer(&m.provider, &signer, NewSignerBundle { signer: &new_signer, credential_with_key: cwk }, LeafNodeParameters::default())
+                        .ok()?;
+                    let bytes = bundle.commit().tls_serialize_detached().ok()?;
+                    let _ = mg.clear_pending_commit(storage);
+                    let keys = Keys::new(nostr::SecretKey::from_slice(&sec).ok()?);
+                    let content = nostr::nips::nip44::encrypt(keys.secret_key(), &keys.public_key, &bytes, nostr::nips::nip44::Version::default()).ok()?;
+                    EventBuilder::new(Kind::MlsGroupMessage, content)
+                        .tag(Tag::custom(TagKind::h(), [hex::encode(rec.nostr_group_id)]))
+                        .custom_created_at(Timestamp::from(ts))
+                        .sign_with_keys(&Keys::generate())
+                        .ok()
+                })());
+                self.clients[i].mdk = Some(mdk);
+                match r {
+                    Some(ev) => self.push_event(ev),
+                    None => "err:Craft".into(),
+                }
+            }
             "advupdate" => {
                 // advupdate <i> <tsoff>: member i builds a stand-alone MLS Update PROPOSAL with OpenMLS directly (the MDK
                 // API never sends one), removes it from its own proposal store again, and publishes it like mdk would
@@ -744,7 +786,7 @@ pub fn main(_args: &[String]) -> i32 {
         };
         // fingerprint of the acting client (second token is the client index for client-directed ops)
         let fp = match t[0] {
-            "client" | "kp" | "create" | "welcome" | "accept" | "decline" | "send" | "selfupdate" | "add" | "remove" | "leave" | "data" | "merge" | "clear" | "deliver" | "restart" | "fp" | "advremove" | "advgce" | "advupdate" | "advprop" => {
+            "client" | "kp" | "create" | "welcome" | "accept" | "decline" | "send" | "selfupdate" | "add" | "remove" | "leave" | "data" | "merge" | "clear" | "deliver" | "restart" | "fp" | "advremove" | "advgce" | "advupdate" | "advprop" | "advident" => {
                 let ci = u(t[1]) as usize;
                 if ci < world.clients.len() && world.clients[ci].mdk.is_some() {
                     catch_unwind(AssertUnwindSafe(|| world.fingerprint(ci))).unwrap_or_else(|_| "fp-panic".into())
